@@ -227,6 +227,17 @@ class SkipRoute(Exception):
 
 
 def build_parent(v, sid, prof, path, route):
+    try:
+        return _build_parent(v, sid, prof, path, route)
+    except Exception as ex:
+        # the instance text leaves the edited child out; when the parser still runs into a cardinality of the profile (the
+        # edited child is what opens its group, and the group finder opens it for another member), the route does not apply
+        if route in ("parsed", "value", "assigned") and type(ex).__name__ == "MaxChildLimitReached":
+            raise SkipRoute()
+        raise
+
+
+def _build_parent(v, sid, prof, path, route):
     """-> (parent element of the edited child, its class); the parent comes into being by `route`:
        add      - add_* helpers from a Message created with the profile
        trav     - attribute traversal from that Message (proxies, lazily created chain)
